@@ -163,6 +163,10 @@ def judge(ctx, case):
             routes['pack-eq'] = lambda: pack(f'{name}:{n}={sv}')
             routes['pack-kwlen'] = lambda: pack(f'{name}:k', pv, k=n)
             routes['pack-kwval'] = lambda: pack(f'{name}:{n}=x', x=pv)
+            # a list of format strings, then its first item alone again: the value of a creation call does not depend on earlier calls
+            routes['pack-list'] = lambda: pack([f'{name}:{n}={sv}', 'uint:3=5', f'{name}:{n}'], pv)[:nbits]
+            routes['pack-list-tail'] = lambda: pack([f'{name}:{n}={sv}', 'uint:3=5', f'{name}:{n}'], pv)[nbits + 3:]
+            routes['pack-eq-after-list'] = lambda: pack(f'{name}:{n}={sv}')
             routes['Array'] = lambda: Array(f'{name}{n}', [pv]).data
             if fam in ('hex', 'oct', 'bin'):
                 routes['kw-no-length'] = lambda: cls(**{name: pv})
@@ -193,6 +197,9 @@ def judge(ctx, case):
             'read-Dtype': lambda: ConstBitStream(s).read(Dtype(name, n) if fam != 'bool' else Dtype('bool')),
         }
         if fam != 'bool':
+            reads['unpack-kwlen'] = lambda: s.unpack(f'{name}:k', k=n)[0]
+            reads['readlist-kwlen'] = lambda: ConstBitStream(s).readlist(f'{name}:k', k=n)[0]
+            reads['peeklist-kwlen'] = lambda: BitStream(s).peeklist([f'{name}:k'], k=n)[0]
             reads['prop+len'] = lambda: getattr(s, f'{name}{n}')
             reads['unpack-stretchy'] = lambda: s.unpack(name)[0]
             reads['read-stretchy'] = lambda: ConstBitStream(s).read(name)
